@@ -164,7 +164,7 @@ fn gen_array(rng: &mut Rng, shape: usize, len: usize) -> (Vec<Value>, Option<Vec
     let mut path = None;
     match shape {
         0 => for _ in 0..len { let z = rng.range(-6, 20) as i128; let r = pools::int_reps(z); out.push(r[rng.below(r.len())].clone()); },
-        1 => for _ in 0..len { out.push(Value::from(["", "a", "b", "ab", "é", "日本", "z", "B", "aa"][rng.below(9)])); },
+        1 => for _ in 0..len { out.push(Value::from(["", "a", "b", "ab", "é", "日本", "z", "B", "aa", "a\0", "ab\0", "\0"][rng.below(12)])); },
         2 => for _ in 0..len {
             out.push(match rng.below(4) {
                 0 => Value::from([0.0f64, -0.0, 1.0, 2.5, -1.5, 3.0, f64::NAN, f64::INFINITY, 9007199254740992.0][rng.below(9)]),
@@ -371,6 +371,11 @@ fn main() {
             vec![u(1), Value::undefined()],
             vec![Value::none(), Value::none()],
             vec![Value::from(f64::NAN), Value::from(1.0f64), Value::from(f64::NAN), u(1)],
+            // strings that differ only by trailing NULs / are prefixes of one another, around the 21-byte inline limit
+            vec![Value::from("ab"), Value::from("ab\0"), Value::from("ab"), Value::from("ab\0\0"), Value::from("b"), Value::from("ab\0")],
+            vec![Value::from("k\0"), Value::from("k")],
+            vec![Value::from("\0\0"), Value::from(""), Value::from("\0")],
+            vec![Value::from("aaaaaaaaaaaaaaaaaaaaaa"), Value::from("aaaaaaaaaaaaaaaaaaaaa"), Value::from("aaaaaaaaaaaaaaaaaaaaa\0"), Value::from("aaaaaaaaaaaaaaaaaaaa"), Value::from("aaaaaaaaaaaaaaaaaaaa\0")],
         ];
         for xs in fixed {
             let r_sort = run(&tera, "xs | sort", &xs);
